@@ -262,9 +262,16 @@ impl Qcow2Header {
             return Err(format!("qcow2 v{v} is not supported").into());
         }
 
-        // refcount_order is always 4 for version 2
+        // version 2 header ends at byte 72, and what follows is header
+        // extensions instead of the v3 fields: refcount_order is always 4,
+        // header length is always 72, and there isn't any feature bit
         if header.version == 2 {
             header.refcount_order = 4;
+            header.header_length = 72;
+            header.incompatible_features = 0;
+            header.compatible_features = 0;
+            header.autoclear_features = 0;
+            header.compression_type = 0;
         }
 
         let cluster_bits = header.cluster_bits;
